@@ -27,3 +27,9 @@ Proof.
   intros Hl Hx. apply nodup_app_intro; [assumption | constructor; [intros []|constructor] |].
   intros y Hy [E|[]]. subst. contradiction.
 Qed.
+
+Lemma forallb_filter_id {A} (f : A -> bool) (l : list A) : forallb f l = true -> filter f l = l.
+Proof.
+  induction l as [|a t IH]; simpl; [reflexivity|]. intros H. apply Bool.andb_true_iff in H. destruct H as (Ha & Ht).
+  rewrite Ha. f_equal. apply IH. assumption.
+Qed.
